@@ -7,11 +7,11 @@ cd "$WT" || exit 9
 git checkout -q -- . 
 mkdir -p /tmp/seed/_hold && mv -f $CR/tests/seed_${P}_*.rs /tmp/seed/_hold/ 2>/dev/null
 git apply _seed/$V.diff || { echo "APPLY FAILED"; exit 9; }
-suite=$(cargo test --workspace --offline 2>&1 | grep -E "^test result" | awk '{p+=$4; f+=$6} END {print p" passed "f" failed"}')
+suite=$(cargo test --workspace --offline 2>&1 | grep -a -E "^test result" | awk '{p+=$4; f+=$6} END {print p" passed "f" failed"}')
 mkdir -p $CR/tests && cp _seed/seed_${P}_$V.rs $CR/tests/
-with=$(cargo test --offline -p $CR --test seed_${P}_$V 2>&1 | grep -E "^test result" | head -1)
+with=$(cargo test --offline -p $CR --test seed_${P}_$V 2>&1 | grep -a -E "^test result" | head -1)
 git checkout -q -- .
-without=$(cargo test --offline -p $CR --test seed_${P}_$V 2>&1 | grep -E "^test result" | head -1)
+without=$(cargo test --offline -p $CR --test seed_${P}_$V 2>&1 | grep -a -E "^test result" | head -1)
 rm -f $CR/tests/seed_${P}_$V.rs
 echo "suite-with-change: $suite"
 echo "demo-with-change: $with"
